@@ -12,7 +12,7 @@ meta = {"property": prop, "breaks": breaks, "needs": needs, "caught_by": [c.stri
         "ran": [f"/verif/confirm_seed.sh {dst}", f"/verif/seedtest.sh {dst}/patch.diff {prop}"],
         "source": f"fresh sub-agent ({tag}: told only the property text and which earlier ideas to avoid), own scratch worktree"}
 json.dump(meta, open(os.path.join(dst, "meta.json"), "w"), indent=1)
-wt = {"agent3": f"/tmp/wt3-{prop}", "agent4": f"/tmp/wt4-{prop}", "agent5": f"/tmp/wt5-{prop}", "agent6": f"/tmp/wt6-{prop}", "agent7": f"/tmp/wt7-{prop}", "agent8": f"/tmp/wt8-{prop}", "agent9": f"/tmp/wt9-{prop}", "agent10": f"/tmp/wt10-{prop}", "agent11": f"/tmp/wt11-{prop}", "agent12": f"/tmp/wt12-{prop}"}.get(tag, f"/tmp/wt-{prop}")
+wt = {"agent3": f"/tmp/wt3-{prop}", "agent4": f"/tmp/wt4-{prop}", "agent5": f"/tmp/wt5-{prop}", "agent6": f"/tmp/wt6-{prop}", "agent7": f"/tmp/wt7-{prop}", "agent8": f"/tmp/wt8-{prop}", "agent9": f"/tmp/wt9-{prop}", "agent10": f"/tmp/wt10-{prop}", "agent11": f"/tmp/wt11-{prop}", "agent12": f"/tmp/wt12-{prop}", "agent13": f"/tmp/wt13-{prop}", "agent14": f"/tmp/wt14-{prop}"}.get(tag, f"/tmp/wt-{prop}")
 if os.path.isdir(wt):
     subprocess.run(["git", "-C", "/repo", "worktree", "remove", "--force", wt])
 shutil.rmtree(src, ignore_errors=True)
